@@ -231,6 +231,7 @@ Inductive call :=
 | CConcat | CPrepend (v : val) | CAppend (v : val) | CPair (a b : val) | CReplicate (v : val) (n : nat)
 | CCartesian | CRepeatConcat (n : nat) | CPower (n : nat)
 | CJoin (sep : list N) | CSplit (sep : list N) | CWords | CLines | CUnwords | CUnlines
+| CSplitN (sep : list N) (n : nat) | CStrRepeat (n : nat) | CTakeN (n : nat) | CDropN (n : nat)
 | CPermutations | CCombinations (n : nat) | CSubsequences.
 
 Definition vnat (n : nat) : val := VInt (Z.of_nat n).
@@ -336,6 +337,10 @@ Definition run (c : call) (args : list val) : option val :=
   | CSplit sep => with_str args (fun s => option_map (fun ps => vlist (map VStr ps)) (sl_split N.eqb sep s))
   | CWords => with_str args (fun s => Some (vlist (map VStr (sl_words is_space s))))
   | CLines => with_str args (fun s => Some (vlist (map VStr (sl_lines N.eqb 10%N s))))
+  | CSplitN sep n => with_str args (fun s => option_map (fun ps => vlist (map VStr ps)) (sl_splitn N.eqb sep n s))
+  | CStrRepeat n => with_str args (fun s => Some (VStr (sl_str_repeat s n)))
+  | CTakeN n => with1 args (fun x l => Some (rebuild_like x (sl_take_n n l)))
+  | CDropN n => with1 args (fun x l => Some (rebuild_like x (sl_drop_n n l)))
   | CUnwords => with1 args (fun x l => do ss <- all_some (map str_of l); Some (VStr (sl_unwords 32%N ss)))
   | CUnlines => with1 args (fun x l => do ss <- all_some (map str_of l); Some (VStr (sl_unlines 10%N ss)))
   | CPermutations => with1 args (fun x l => Some (VSeq SStream (map vlist (sl_permutations l))))
